@@ -6,6 +6,7 @@ C07 development).
 -/
 import Rpft.Props.C07
 import Rpft.Lemmas.RowStar
+import Rpft.Lemmas.RowPos
 set_option linter.unusedSimpArgs false
 set_option linter.unusedVariables false
 namespace Rpft.Props.C09
@@ -184,5 +185,119 @@ example :
         ("mainarg_message_text".toList, "hi; there".toList)] with
     | .ok a, .ok b => a == b
     | _, _ => false) = true := by decide +kernel
+
+/-! ### positional vs keyword records -/
+
+/-- `Unambiguous`: the positional cell is not a pair whose first value is (after
+header→field remap; none here) the name of a field of the record — the case in which
+`assign_value` prefers the keyword reading (finding F-C09-a).  Entries of a positional
+cell of basic values are plain strings, so the entry-level rule cannot fire. -/
+def Unambiguous (sfs : List Field) (texts : List Str) : Bool :=
+  match texts with
+  | [k, _] => (fieldLookup k sfs).isNone
+  | _ => true
+
+theorem alookup_fieldAssigners_none : ∀ (sfs : List Field) (k : Str),
+    fieldLookup k sfs = none → alookup k (fieldAssigners sfs) = none
+  | [], _, _ => rfl
+  | (n, t, d) :: rest, k, h => by
+    simp only [fieldLookup] at h
+    simp only [fieldAssigners, alookup]
+    split at h
+    · simp at h
+    · rename_i hne
+      simp [hne, alookup_fieldAssigners_none rest k h]
+
+theorem tryKwarg_of_unambiguous (sfs : List Field) (pm : List SPair)
+    (h : Unambiguous sfs (pm.map fun p => printBasic p.2) = true) :
+    tryKwarg (fieldAssigners sfs) [] (.list (pm.map posEntry)) = none := by
+  match pm, h with
+  | [], _ => simp [tryKwarg]
+  | [p], _ => simp [tryKwarg]
+  | [p, q], h =>
+    simp only [List.map_cons, List.map_nil, Unambiguous, Option.isNone_iff_eq_none] at h
+    simp [tryKwarg, posEntry, remap_nil, alookup_fieldAssigners_none sfs _ h]
+  | p :: q :: r :: rest, _ => simp [tryKwarg]
+
+/-- general statement: every positional / keyword / mixed encoding of a record (of any
+field types, at any nesting) decodes to the same value when no kwarg ambiguity arises -/
+def positional_eq_keyword_full : Prop :=
+  ∀ (ty : Ty) (v : Val) (pos kw : Cell.Nested) (tp tk : Str),
+    reprOk false ty v = true → toNested ty v = .ok kw →
+    joinPacked kw = .ok tk → joinPacked pos = .ok tp →
+    -- `pos` = values of the leading fields in order, recursively; no entry and no 2-entry
+    -- record of `pos` is a (field name, value) pair
+    readCell ty tp = readCell ty tk
+
+/-- **Positional = keyword** for records of basic-typed fields: the cell `v1|…|vm` with the
+values of the first `m` fields (the remaining fields at their defaults) decodes to the same
+record as the key/value cell `a;va|b;vb|…` of its non-default fields written by `unparse`
+— namely to the record itself — whenever `Unambiguous`. -/
+theorem positional_eq_keyword_partial {sfs : List Field} {skvs : List (Str × Val)}
+    (hfam : subFamily sfs = true)
+    (hr : reprOk false (plainTop sfs) (.model skvs) = true)
+    (hfo : fieldOk false (plainTop sfs) (.model skvs) = true)
+    (pm pr : List SPair) (hpairs : pm ++ pr = sfs.zip (skvs.map Prod.snd)) (hne : pm ≠ [])
+    (hok : ∀ p ∈ pm, reprOk false p.1.2.1 p.2 = true)
+    (hlast : ∀ p, pm.getLast? = some p → printBasic p.2 ≠ [])
+    (hdef : ∀ p ∈ pr, p.1.2.2 = some p.2)
+    (hun : Unambiguous sfs (pm.map fun p => printBasic p.2) = true) :
+    readCell (plainTop sfs) (Cell.joinCell (.list (pm.map posElem))) = .ok (.model skvs) ∧
+    readCell (plainTop sfs)
+      (Cell.joinCell (.list (((sfs.zip (skvs.map Prod.snd)).filter nonDefault).map subElem))) =
+        .ok (.model skvs) := by
+  obtain ⟨D⟩ := subData_of_repr hfam hr hfo
+  have hfam' := hfam
+  simp only [subFamily, Bool.and_eq_true, List.all_eq_true, decide_eq_true_eq] at hfam'
+  constructor
+  · apply readCell_positional pm pr hpairs D.hnames hfam'.2 hne ?_ hlast hdef
+      (tryKwarg_of_unambiguous sfs pm hun)
+    intro p hp
+    have hmem : p ∈ sfs.zip (skvs.map Prod.snd) := by rw [← hpairs]; exact List.mem_append_left _ hp
+    exact ⟨(hfam'.1 p.1 (List.of_mem_zip hmem).1).2, hok p hp⟩
+  · rw [← D.hpairs]
+    have hokf := subOk_filter D.hok
+    have hndall : ∀ p ∈ D.pairs.filter nonDefault, nonDefault p = true :=
+      fun p hp => (List.mem_filter.mp hp).2
+    obtain ⟨hwf, hcok⟩ := wfCell_pairs D.hne hokf hndall
+      (fun p hp => D.hfok p (List.mem_filter.mp hp).1 (hndall p hp))
+    unfold readCell
+    rw [cellParse_joinCell hwf hcok]
+    have hpv : PV.ofCell (.list ((D.pairs.filter nonDefault).map subElem)) =
+        .list ((D.pairs.filter nonDefault).map subEntry) := by
+      simp [PV.ofCell, List.map_map, PV.ofElem, subElem, subEntry, Function.comp]
+    simp only [hpv, assignValue, assignModel, tryKwarg_pairs_none]
+    rw [assignEntries_kw sfs skvs _ _ [] hokf hndall (fun p _ => rfl)]
+    simp only [List.nil_append, Option.getD_some]
+    exact validate_sub D
+
+def kwSub : List Field :=
+  [("word".toList, .str, some (.str [])), ("number".toList, .int, some (.int 0))]
+
+/-- Boolean form of `readCell ty text = .ok v` for the kernel-evaluated witnesses -/
+def readsAs (ty : Ty) (text : Str) (v : Val) : Bool :=
+  match readCell ty text with
+  | .ok v' => v' == v
+  | .error _ => false
+
+/-- **`Unambiguous` is needed** (finding F-C09-a): for `Sub(word: str, number: int)` the
+positional cell `number;5` (or `number|5`) of `Sub(word="number", number=5)` is decoded as
+the keyword argument `number=5`, leaving `word` at its default; the keyword cell of the same
+data decodes to the data. -/
+theorem positional_needs_Unambiguous :
+    Unambiguous kwSub ["number".toList, "5".toList] = false ∧
+    readsAs (plainTop kwSub) "number;5".toList
+      (.model [("word".toList, .str []), ("number".toList, .int 5)]) = true ∧
+    readsAs (plainTop kwSub) "number|5".toList
+      (.model [("word".toList, .str []), ("number".toList, .int 5)]) = true ∧
+    readsAs (plainTop kwSub) "word;number|number;5".toList
+      (.model [("word".toList, .str "number".toList), ("number".toList, .int 5)]) = true := by
+  decide +kernel
+
+/-- non-vacuity of `positional_eq_keyword_partial`: `Sub(word="x|y", number=5)` as `x\|y|5` -/
+example :
+    readsAs (plainTop kwSub) "x\\|y|5".toList
+      (.model [("word".toList, .str "x|y".toList), ("number".toList, .int 5)]) = true ∧
+    Unambiguous kwSub ["x|y".toList, "5".toList] = true := by decide +kernel
 
 end Rpft.Props.C09
